@@ -44,6 +44,7 @@ type Cfg struct {
 	EmptyStart  bool     `json:"empty_start"`
 	Sweeper     bool     `json:"sweeper"`
 	Cleaner     bool     `json:"cleaner"`
+	TwoRemotes  bool     `json:"two_remotes"` // two remote instances with disjoint keys; both snapshots may wait in the receiver at once
 }
 
 var LoopHooks = []string{"sync.loopTop", "sync.beforeLoad", "load.beforeTxn", "load.afterTxn", "sync.afterLoad", "sync.beforeInfo", "sync.beforeSend", "send.beforeTxn", "send.afterTxn", "send.beforeStore", "send.afterStore", "sync.afterSendCheck", "sync.afterStartupCapture"}
@@ -91,6 +92,9 @@ type World struct {
 	storesAfterQuiet int
 	lastSeq  int
 	pending  int // decoded snapshots handed to the receiver and not yet taken by the loop
+	pendingMax int
+	remoteQ2 []byte
+	remoteQ2N string
 	lastTxn  int64
 }
 
@@ -145,9 +149,12 @@ func sleepKey(d time.Duration) string {
 }
 
 // buildRemotes creates the scripted remote instance's snapshots with real code.
-func buildRemotes(native bool) (n1 string, d1 []byte, n2 string, d2 []byte) {
+func buildRemotes(name string) (n1 string, d1 []byte, n2 string, d2 []byte) {
 	tmp := world.NewBucket()
-	r := inst.New("r", tmp, inst.Opt{Native: true})
+	r := inst.New(name, tmp, inst.Opt{Native: true})
+	if name != "r" {
+		return buildRemotesQ(r, tmp)
+	}
 	defer r.Destroy()
 	var clk uint64 = base - 5_000_000_000
 	verifhook.SetNow(func(string, time.Time) time.Time { return time.Unix(0, int64(clk)) })
@@ -164,6 +171,32 @@ func buildRemotes(native bool) (n1 string, d1 []byte, n2 string, d2 []byte) {
 	r.AppTxn(func(txn *lmdb.Txn) error {
 		inst.NativePut(txn, "d", []byte("b"), 8, false, []byte("rb2"))
 		inst.NativePut(txn, "d", []byte("c"), 9, true, nil)
+		return nil
+	})
+	if _, err := r.Send(); err != nil {
+		panic(err)
+	}
+	names := tmp.Names()
+	d1, _ = tmp.Get(names[0])
+	d2, _ = tmp.Get(names[1])
+	return names[0], d1, names[1], d2
+}
+
+// buildRemotesQ: a second remote instance whose keys are disjoint from everything else.
+func buildRemotesQ(r *inst.Inst, tmp *world.Bucket) (n1 string, d1 []byte, n2 string, d2 []byte) {
+	defer r.Destroy()
+	var clk uint64 = base - 4_500_000_000
+	verifhook.SetNow(func(string, time.Time) time.Time { return time.Unix(0, int64(clk)) })
+	r.AppTxn(func(txn *lmdb.Txn) error {
+		inst.NativePut(txn, "d", []byte("q1"), 15, false, []byte("qv1"))
+		return nil
+	})
+	if _, err := r.Send(); err != nil {
+		panic(err)
+	}
+	clk += 1_000_000_000
+	r.AppTxn(func(txn *lmdb.Txn) error {
+		inst.NativePut(txn, "d", []byte("q2"), 16, false, []byte("qv2"))
 		return nil
 	})
 	if _, err := r.Send(); err != nil {
@@ -357,7 +390,12 @@ func Run(cfg Cfg, ctx *explore.Ctx) Result {
 		points[p] = true
 	}
 	w := &World{Cfg: cfg, B: world.NewBucket(), clock: base, touched: map[string]appVer{}, visits: map[string]int{}, syncDone: make(chan struct{})}
-	n1, d1, n2, d2 := buildRemotes(cfg.Native)
+	n1, d1, n2, d2 := buildRemotes("r")
+	var qn1, qn2 string
+	var qd1, qd2 []byte
+	if cfg.TwoRemotes {
+		qn1, qd1, qn2, qd2 = buildRemotes("q")
+	}
 	verifhook.SetSkip(func(string) bool { return true })
 	verifhook.SetNow(func(site string, t time.Time) time.Time { return time.Unix(0, int64(w.now())) })
 	opt := inst.Opt{Native: cfg.Native, Tweak: func(c *config.Config, lc *config.LMDB) {
@@ -382,6 +420,11 @@ func Run(cfg Cfg, ctx *explore.Ctx) Result {
 	}
 	w.B.Put(n1, d1)
 	w.remote2, w.remote2N = d2, n2
+	if cfg.TwoRemotes {
+		w.B.Put(qn1, qd1)
+		w.remoteQ2, w.remoteQ2N = qd2, qn2
+		w.pendingMax = 2
+	}
 
 	s := sched.New(ctx)
 	w.S = s
@@ -544,7 +587,7 @@ func (w *World) policy(appPoints map[string]bool) sched.Policy {
 			case strings.HasPrefix(p.Point, "sleep."):
 				// retry sleeps of downloaders: fire them as background work
 				background = append(background, p)
-			case strings.HasPrefix(p.Thread, "dl:") && (p.Point == "dl.loadonce" || p.Point == "st.load") && w.pending > 0:
+			case strings.HasPrefix(p.Thread, "dl:") && (p.Point == "dl.loadonce" || p.Point == "st.load") && w.pending > 0 && !(w.pendingMax == 2 && w.pending < 2 && p.Thread != "dl:a"):
 				// Receiver.Next picks a random map entry: keep at most one undelivered snapshot
 				// in the receiver so that the merge order is decided by the harness
 			default:
@@ -606,6 +649,9 @@ func (w *World) policy(appPoints map[string]bool) sched.Policy {
 			if cfg.Remote2 && !w.r2shown {
 				out = append(out, sched.Choice{Label: "remote-snapshot-2-appears", Cost: 1, Act: &sched.Action{Do: func() {
 					w.B.Put(w.remote2N, w.remote2)
+					if w.remoteQ2 != nil {
+						w.B.Put(w.remoteQ2N, w.remoteQ2)
+					}
 					w.r2shown = true
 					w.mu.Lock()
 					w.bucketVer++
@@ -655,7 +701,9 @@ func (w *World) policy(appPoints map[string]bool) sched.Policy {
 			w.visits[loop.Point]++
 		}
 		out := one(loop, 0)
-		if appPoints[loop.Point] && straddle == nil && (cfg.MaxVisits == 0 || w.visits[loop.Point] <= cfg.MaxVisits) {
+		// hooks passed in every poll iteration are offered deviations only at their first MaxVisits visits
+		perIteration := loop.Point == "sync.loopTop" || loop.Point == "sync.beforeInfo" || loop.Point == "sync.afterSendCheck"
+		if appPoints[loop.Point] && straddle == nil && (cfg.MaxVisits == 0 || !perIteration || w.visits[loop.Point] <= cfg.MaxVisits) {
 			for _, op := range cfg.AppOps {
 				op := op
 				out = append(out, sched.Choice{Label: "app:" + op + "@" + loop.Point, Cost: 1, Act: &sched.Action{Do: func() {
